@@ -22,6 +22,10 @@ pub enum Kind {
 pub struct Case {
     pub cpus: usize,
     pub kind: Kind,
+    /// (seed, generated length) of the data stream v and w were drawn from; huge cases are stored in
+    /// replay files as "the first len elements of that stream" instead of millions of literals
+    pub data_seed: u64,
+    pub gen_len: usize,
     pub v: Vec<f64>,
     pub w: Vec<f64>,
     /// basis probes: dot_f64(v, e_i) must be exactly v[i]
@@ -29,6 +33,10 @@ pub struct Case {
     /// history before the calls under test: a product of two other vectors of this length on the
     /// same thread (0 = none). The routine must not remember anything between calls.
     pub decoy_len: usize,
+    /// fault: the CPU count alternates between `cpus` and this value from one consultation to the
+    /// next (the affinity changes while the program runs). Code that asks once per call sees a
+    /// different — but self-consistent — count per call; code that asks twice within a call does not.
+    pub cpu_flip: Option<usize>,
     /// fault: thread creation through `std::thread::Builder` is refused (EAGAIN) from this spawn on
     /// (None = never). The shipped code spawns through `Scope::spawn`, which cannot report failure, so
     /// on it the fault never fires; code that does use `Builder` may refuse loudly (panic) or cope,
@@ -60,7 +68,9 @@ fn gen_exact(rng: &mut Rng, len: usize) -> (Vec<f64>, Vec<f64>) {
         return (v, w);
     }
     let small = rng.chance(0.3);
-    let lim: i64 = if small { 9 } else { 1 << 20 };
+    // every partial sum of products (also of v.v and w.w) must stay below 2^52 in any order: len * lim^2 < 2^52
+    let cap = ((((1u64 << 52) as f64) / (len.max(1) as f64)).sqrt().floor() as i64).max(1);
+    let lim: i64 = if small { 9 } else { (1i64 << 20).min(cap) };
     for _ in 0..len {
         let mut a = rng.range(-lim, lim);
         let mut b = rng.range(-lim, lim);
@@ -113,6 +123,14 @@ fn gen_general(rng: &mut Rng, len: usize) -> (Vec<f64>, Vec<f64>) {
         }
     }
     (v, w)
+}
+
+fn gen_data(kind: Kind, data_seed: u64, len: usize) -> (Vec<f64>, Vec<f64>) {
+    let mut drng = Rng::new(data_seed);
+    match kind {
+        Kind::Exact => gen_exact(&mut drng, len),
+        Kind::General => gen_general(&mut drng, len),
+    }
 }
 
 fn gen_probes(rng: &mut Rng, len: usize, cpus: usize, n: usize) -> Vec<usize> {
@@ -194,6 +212,31 @@ fn assoc_sums(xs: &[f64]) -> Vec<f64> {
     out
 }
 
+/// a case too large to write out literally whose data still are a prefix of their generated stream
+fn big_generated(case: &Case) -> bool {
+    if case.v.len() <= 50_000 || case.gen_len < case.v.len() {
+        return false;
+    }
+    let (gv, gw) = gen_data(case.kind, case.data_seed, case.gen_len);
+    let n = case.v.len();
+    gv[..n].iter().zip(case.v.iter()).all(|(a, b)| a.to_bits() == b.to_bits()) && gw[..n].iter().zip(case.w.iter()).all(|(a, b)| a.to_bits() == b.to_bits())
+}
+
+fn regenerated(v: &Value) -> Option<(Vec<f64>, Vec<f64>)> {
+    let g = v.get("data_generated")?;
+    if g.is_null() {
+        return None;
+    }
+    let seed: u64 = g["seed"].as_str()?.parse().ok()?;
+    let gen_len = g["generated_len"].as_u64()? as usize;
+    let n = g["truncated_to"].as_u64()? as usize;
+    let kind = if v["kind"].as_str() == Some("general") { Kind::General } else { Kind::Exact };
+    let (mut a, mut b) = gen_data(kind, seed, gen_len);
+    a.truncate(n);
+    b.truncate(n);
+    Some((a, b))
+}
+
 fn k_idx(outs: &[ExecOut], o: &ExecOut) -> usize {
     outs.iter().position(|x| std::ptr::eq(x, o)).unwrap_or(0)
 }
@@ -258,7 +301,10 @@ fn execute_raw(case: &Case) -> (Vec<ExecReport>, Vec<ExecOut>) {
         }
     });
     let reports = crate::sched::run_under_with(&case.scheds, move |idx| {
-        verif_seam::num_cpus::set_override(Some(c.cpus));
+        match c.cpu_flip {
+            Some(other) => verif_seam::num_cpus::set_override_alternating(c.cpus, other),
+            None => verif_seam::num_cpus::set_override(Some(c.cpus)),
+        }
         verif_seam::thread::refuse_spawns_from(c.refuse_spawns_from);
         let q0 = verif_seam::num_cpus::calls();
         let out = {
@@ -268,7 +314,10 @@ fn execute_raw(case: &Case) -> (Vec<ExecReport>, Vec<ExecOut>) {
             let a = Vector::<f64>::create((0..c.decoy_len).map(|i| (i % 13) as f64 + 1.0).collect());
             let b = Vector::<f64>::create((0..c.decoy_len).map(|i| (i % 7) as f64 - 3.5).collect());
             let _ = a.dot_f64(&b);
-            verif_seam::num_cpus::set_override(Some(c.cpus));
+            match c.cpu_flip {
+                Some(other) => verif_seam::num_cpus::set_override_alternating(c.cpus, other),
+                None => verif_seam::num_cpus::set_override(Some(c.cpus)),
+            }
         }
         let other = if c.concurrent {
             let n2 = c.v.len() + 3;
@@ -342,6 +391,9 @@ impl Prop for C16 {
     fn tag(&self) -> u64 {
         16
     }
+    fn cost(&self, case: &Case) -> u64 {
+        1 + (case.v.len() as u64 * case.scheds.len().max(1) as u64) / 20_000
+    }
     // isolate_runs() stays true: every chunk of 64 runs gets a fresh client thread and therefore a
     // fresh shuttle server thread (thread-local state of the system under test lives there); the
     // coroutine stacks are pooled within the chunk.
@@ -377,15 +429,21 @@ impl Prop for C16 {
                     (q * cpus + rng.urange(0, 2)).saturating_sub(1)
                 }
                 4..=7 => rng.urange(201, 1200),
-                _ => rng.urange(1201, 5000),
+                8 => rng.urange(1201, 5000),
+                _ => {
+                    if rng.chance(0.02) {
+                        rng.urange(1_048_570, 9_000_000) // millions of elements: caps and block sizes in the 2^20..2^22 range
+                    } else if rng.chance(0.15) {
+                        rng.urange(5001, 150_000) // far beyond any block / cap size a rewrite might use
+                    } else {
+                        rng.urange(1201, 5000)
+                    }
+                }
             };
             (len, cpus, if rng.chance(0.5) { Kind::Exact } else { Kind::General })
         };
-        let mut drng = rng.fork(1);
-        let (v, w) = match kind {
-            Kind::Exact => gen_exact(&mut drng, len),
-            Kind::General => gen_general(&mut drng, len),
-        };
+        let data_seed = rng.next_u64();
+        let (v, w) = gen_data(kind, data_seed, len);
         let mut prng = rng.fork(2);
         let n_probes = if len <= 64 { 3 } else { 2 };
         let probes = gen_probes(&mut prng, len, cpus, n_probes);
@@ -402,7 +460,8 @@ impl Prop for C16 {
         let mutate = hrng.chance(0.35);
         let concurrent = hrng.chance(0.2);
         let refuse_spawns_from = if hrng.chance(0.1) { Some(hrng.usize_below(3 * cpus + 1)) } else { None };
-        Case { cpus, kind, v, w, probes, decoy_len, mutate, concurrent, refuse_spawns_from, scheds }
+        let cpu_flip = if hrng.chance(0.08) { Some(if hrng.chance(0.5) { 1 } else { hrng.urange(1, 16) }) } else { None };
+        Case { cpus, kind, data_seed, gen_len: len, v, w, probes, decoy_len, mutate, concurrent, refuse_spawns_from, cpu_flip, scheds }
     }
 
     fn execute(&self, case: &Case, stats: &mut Stats) -> Verdict {
@@ -443,6 +502,9 @@ impl Prop for C16 {
         }
         if case.decoy_len > 0 {
             stats.count("probe.history_other_product_before");
+        }
+        if case.cpu_flip.is_some() {
+            stats.count("fault.cpu_count_alternates");
         }
         for r in &reports {
             stats.count("executions");
@@ -613,7 +675,9 @@ impl Prop for C16 {
                 stats.count("probe.in_place_change_checked");
             }
             // oracle (b1): repeated call inside one execution
-            if o.r1.to_bits() != o.r2.to_bits() {
+            // (under an alternating CPU count the two calls legitimately use different partitions: on inexact
+            // data they may then differ by reassociation, on exact data they still may not)
+            if o.r1.to_bits() != o.r2.to_bits() && !(case.cpu_flip.is_some() && case.kind == Kind::General) {
                 return violation(
                     "schedule-dependence",
                     "dot_f64:repeat",
@@ -681,6 +745,11 @@ impl Prop for C16 {
             c.concurrent = false;
             out.push(c);
         }
+        if case.cpu_flip.is_some() {
+            let mut c = case.clone();
+            c.cpu_flip = None;
+            out.push(c);
+        }
         if let Some(k) = case.refuse_spawns_from {
             let mut c = case.clone();
             c.refuse_spawns_from = None;
@@ -742,7 +811,7 @@ impl Prop for C16 {
             }
         }
         // simpler data
-        if case.v.iter().any(|x| *x != 1.0) || case.w.iter().any(|x| *x != 1.0) {
+        if len <= 50_000 && (case.v.iter().any(|x| *x != 1.0) || case.w.iter().any(|x| *x != 1.0)) {
             let mut c = case.clone();
             c.v = vec![1.0; len];
             c.w = vec![1.0; len];
@@ -768,8 +837,10 @@ impl Prop for C16 {
             "len": case.v.len(),
             "cpus": case.cpus,
             "kind": match case.kind { Kind::Exact => "exact", Kind::General => "general" },
-            "v_bits": f64s_hex(&case.v),
-            "w_bits": f64s_hex(&case.w),
+            "v_bits": if big_generated(case) { Value::Null } else { f64s_hex(&case.v) },
+            "w_bits": if big_generated(case) { Value::Null } else { f64s_hex(&case.w) },
+            "data_generated": if big_generated(case) { json!({"seed": case.data_seed.to_string(), "generated_len": case.gen_len, "truncated_to": case.v.len(),
+                "note": "v and w are the first `truncated_to` elements of the stream gen_data(kind, seed, generated_len) of simcheck/src/c16.rs"}) } else { Value::Null },
             "v_preview": case.v.iter().take(8).collect::<Vec<_>>(),
             "w_preview": case.w.iter().take(8).collect::<Vec<_>>(),
             "basis_probes": case.probes,
@@ -777,6 +848,7 @@ impl Prop for C16 {
             "then_change_v_in_place_and_repeat": case.mutate,
             "second_concurrent_caller": case.concurrent,
             "fault_refuse_builder_spawns_from": case.refuse_spawns_from,
+            "fault_cpu_count_alternates_with": case.cpu_flip,
             "schedules": case.scheds.iter().map(|s| s.to_json()).collect::<Vec<_>>(),
         })
     }
@@ -785,13 +857,16 @@ impl Prop for C16 {
         Case {
             cpus: usize_of(&v["cpus"]),
             kind: if v["kind"].as_str() == Some("general") { Kind::General } else { Kind::Exact },
-            v: hex_f64s(&v["v_bits"]),
-            w: hex_f64s(&v["w_bits"]),
+            data_seed: v["data_generated"]["seed"].as_str().and_then(|s| s.parse().ok()).unwrap_or(0),
+            gen_len: v["data_generated"]["generated_len"].as_u64().unwrap_or(0) as usize,
+            v: regenerated(v).map(|d| d.0).unwrap_or_else(|| hex_f64s(&v["v_bits"])),
+            w: regenerated(v).map(|d| d.1).unwrap_or_else(|| hex_f64s(&v["w_bits"])),
             probes: v["basis_probes"].as_array().map(|a| a.iter().map(usize_of).collect()).unwrap_or_default(),
             decoy_len: v["history_decoy_product_len"].as_u64().unwrap_or(0) as usize,
             mutate: v["then_change_v_in_place_and_repeat"].as_bool().unwrap_or(false),
             concurrent: v["second_concurrent_caller"].as_bool().unwrap_or(false),
             refuse_spawns_from: v["fault_refuse_builder_spawns_from"].as_u64().map(|x| x as usize),
+            cpu_flip: v["fault_cpu_count_alternates_with"].as_u64().map(|x| x as usize),
             scheds: v["schedules"].as_array().map(|a| a.iter().map(SchedSpec::from_json).collect()).unwrap_or_default(),
         }
     }
@@ -807,7 +882,7 @@ impl Prop for C16 {
             ],
             real_components: vec!["ohsl::Vector::<f64>::dot_f64 (partition, slices, worker closures, join loop, reduction)".into(), "ohsl::Vector::dot".into()],
             stub_components: vec!["std::thread::{scope,spawn,join} -> shuttle runtime + our scheduler".into(), "num_cpus::get -> per-run override".into()],
-            fault_kinds: vec!["stalled_worker", "thread_spawn_refused"],
+            fault_kinds: vec!["stalled_worker", "thread_spawn_refused", "cpu_count_alternates"],
             step_meaning: "ohsl has no clock; simulated_steps counts scheduler decisions (one per context-switch point: spawn, join, task exit)".into(),
         }
     }
